@@ -347,7 +347,7 @@ fn build_corpus() -> Corpus {
         cose,
         strs(&[crate::world::ANDROID_FP, "B3:5B"]),
         strs(&["example.co.uk", "www.xn--bcher-kva.example", "a.b.c.d.e.f.g.h.example.com", "localhost", "xn--p1ai", "city.kawasaki.jp", "www.ck", "foo.bar.compute.amazonaws.com", "Example.CO.UK", "\u{212a}.com", "www.\u{212a}elvin.co.uk", "\u{1e9e}.example", "\u{130}.com", "a.\u{212a}", "\u{1c5}.example", "\u{fb01}.example", "\u{3a3}\u{3a3}.gr", "\u{ff21}.example.com", "e\u{301}.example", "\u{130}\u{130}\u{130}.co.uk"]),
-        strs(&["https://login.example.com\nexample.com", "http://localhost:4000\nlocalhost", "https://xn--bcher-kva.example/path?q#f\nxn--bcher-kva.example", "https://[::1]:8443\n", "https://user:pw@sub.example.co.uk:1/\nexample.co.uk", "www.example.net\nexample.net", "https://example.com\n\u{212a}.com", "https://www.example.co.uk\n\u{130}.co.uk", "https://\u{212a}.example\n\u{212a}.example", "www.\u{1e9e}.example\n\u{1e9e}.example"]),
+        strs(&["https://login.example.com\nexample.com", "http://localhost:4000\nlocalhost", "https://xn--bcher-kva.example/path?q#f\nxn--bcher-kva.example", "https://[::1]:8443\n", "https://user:pw@sub.example.co.uk:1/\nexample.co.uk", "www.example.net\nexample.net", "https://example.com\n\u{212a}.com", "https://www.example.co.uk\n\u{130}.co.uk", "https://\u{212a}.example\n\u{212a}.example", "www.\u{1e9e}.example\n\u{1e9e}.example", "https://\u{4f8b}\u{4f8b}\u{4f8b}\u{4f8b}.com\n\u{4f8b}\u{4f8b}\u{4f8b}\u{4f8b}.com", "https://www.\u{65e5}\u{672c}\u{8a9e}.example\n\u{65e5}\u{672c}\u{8a9e}.example", "https://xn--bcher-kva.example\nb\u{fc}cher.example", "https://a.xn--fsq.com\n\u{4f8b}.com"]),
         vec![vec![0x11; 64]],
         {
             let mut d = vec![0x03u8];
@@ -398,6 +398,21 @@ fn build_corpus() -> Corpus {
         many.push(p);
     }
     hid_streams.push(many);
+    // 20 000 unfinished initialisation packets on channels whose ids agree in their low (resp. high) 16
+    // bits: whatever table the receiver keeps them in, the ids are the peer's choice
+    for shift in [16u32, 0] {
+        let mut aligned = Vec::new();
+        for ch in 0..20_000u32 {
+            let mut p = vec![0u8; 64];
+            let id = if shift == 16 { ch << 16 | 0x0001 } else { (ch.swap_bytes() >> 16).swap_bytes() | ch << 16 };
+            p[..4].copy_from_slice(&(if shift == 16 { ch << 16 } else { id }).to_be_bytes());
+            p[4] = 0x90;
+            p[5] = 0x00;
+            p[6] = 58;
+            aligned.push(p);
+        }
+        hid_streams.push(aligned);
+    }
     // a hand-made stream no honest sender produces: BCNT 65535 followed by 300 continuations
     let mut long = Vec::new();
     let mut init = vec![0u8; 64];
@@ -823,6 +838,11 @@ fn sweep_for(decoder: &str, base: &[u8]) -> Vec<Vec<LinkFault>> {
 
 fn hid_sweep(stream: &[Vec<u8>]) -> Vec<Vec<HidFault>> {
     let mut out: Vec<Vec<HidFault>> = vec![vec![]];
+    // (the very long streams are about time in proportion to size: they run as they are)
+    if stream.len() > 5_000 {
+        out.push(vec![HidFault::Dup(0)]);
+        return out;
+    }
     let n = stream.len() as u32;
     let mut idx: Vec<u32> = (0..n.min(6)).collect();
     if n > 6 {
